@@ -3,8 +3,12 @@
    These are the functions that are extracted and run against the compiled library.
    No proofs in this file. *)
 From Coq Require Import NArith List.
-From LCP Require Import Base.CheckedMem Gen.Repo_aes Crypto.AesSpec Accel.AesNi Crypto.AesCtrModel
-  Crypto.AesWipe.
+From LCP Require Import Base.CheckedMem.
+From LCP Require Import Gen.Repo_aes.
+From LCP Require Import Crypto.AesSpec.
+From LCP Require Import Accel.AesNi.
+From LCP Require Import Crypto.AesCtrModel.
+From LCP Require Import Crypto.AesWipe.
 Import ListNotations.
 Local Open Scope N_scope.
 
